@@ -164,6 +164,12 @@ func init() {
 			fr.i.ps.overridesOn = args[0].(bool)
 			return nil
 		},
+		"verifSetMapOrder": func(fr *frame, args []value) value {
+			// verifSetMapOrder(p): every following map iteration uses permutation p of the insertion order (-1: off)
+			fr.i.ps.forcedPerm = int(asInt64(args[0]))
+			return nil
+		},
+		"verifMapOrders": func(fr *frame, args []value) value { return 6 },
 		"verifStderr": func(fr *frame, args []value) value {
 			return strings.Join(fr.i.ps.stderr, "\n")
 		},
